@@ -394,3 +394,47 @@ func C03CustomFuncCall() {
 	zz.Observe("err", err == nil)
 	zz.Cover("returned")
 }
+
+// C03ValidateCycles: schema validation terminates on every template graph: a template that
+// reaches itself — through an object field, an array element, a custom_func argument, an
+// xpath_dynamic declaration or a direct reference, in any combination over two templates — is
+// rejected with an error (never unbounded recursion), and acyclic graphs are accepted.
+func C03ValidateCycles() {
+	zz.HangIsViolation()
+	zz.MapOrder(0)
+	ref := func(kind int, target string) *Decl {
+		t := &Decl{Template: zzS(target)}
+		switch kind {
+		case 0:
+			return t
+		case 1:
+			return &Decl{Object: map[string]*Decl{"a": t}}
+		case 2:
+			return &Decl{Array: []*Decl{t}}
+		case 3:
+			return &Decl{CustomFunc: &CustomFuncDecl{Name: "failif", Args: []*Decl{t}}}
+		}
+		return &Decl{XPathDynamic: t}
+	}
+	k1 := zz.NondetChoice("A.refs", 5)
+	k2 := zz.NondetChoice("B.refs", 5)
+	bTarget := []string{"", "A", "B"}[zz.NondetChoice("B.target", 3)]
+	decls := map[string]*Decl{
+		"A":         ref(k1, "B"),
+		finalOutput: {Object: map[string]*Decl{"x": {Template: zzS("A")}}},
+	}
+	if bTarget == "" {
+		decls["B"] = &Decl{Const: zzS("leaf")}
+	} else {
+		decls["B"] = ref(k2, bTarget)
+	}
+	ctx := &validateCtx{Decls: decls, customFuncs: zzFuncs, declHashes: map[string]string{}}
+	_, err := ctx.validateDecl(finalOutput, decls[finalOutput], []string{finalOutput})
+	if bTarget == "" {
+		zz.Cover("acyclic")
+		zz.Assert(err == nil, "an acyclic template graph is accepted")
+	} else {
+		zz.Cover("cyclic")
+		zz.Assert(err != nil, "a template cycle is rejected with an error")
+	}
+}
